@@ -103,16 +103,20 @@ def run(gaf_path, gfa=None, output=None, index=None, nodes=[], regions=[], forma
         ind_key = sorted(list(ind.keys()), key=lambda x: (x[1], x[2]))
         ind_dict = {}
         for i in ind_key:
+            if i == "ref_contig":
+                continue
             ind_dict[i[0]] = i
 
         if regions:
             assert nodes == []
             nodes = get_unstable(regions, ind)
-        offsets = ind[ind_dict[nodes[0]]]
-        for nd in nodes[1:]:
+        offsets = set()
+        for nd in nodes:
             # extracting all the lines that touches at least one of the nodes
-            offsets = list(set(offsets) | set(ind[ind_dict[nd]]))
-        offsets.sort()
+            # nodes without any alignment are not in the index and contribute nothing
+            if nd in ind_dict:
+                offsets |= set(ind[ind_dict[nd]])
+        offsets = sorted(offsets)
         if len(offsets) == 0:
             raise CommandLineError("No alignments found for the given nodes/regions")
         gaf = GAF(gaf_path)
